@@ -694,12 +694,7 @@ func compareRange(value, min, max Object) Object {
 }
 
 func evalBetweenOperand(exp Expression, env *Environment) Object {
-	identifier, ok := exp.(*Identifier)
-	if !ok {
-		return newError("identifier expected: got %q", exp.String())
-	}
-
-	val := evalIdentifier(identifier, env, true)
+	val := evalIdentifierOperand(exp, env)
 	if val.Type() == ObjectTypeError {
 		return val
 	}
@@ -711,18 +706,20 @@ func evalBetweenOperand(exp Expression, env *Environment) Object {
 	return val
 }
 
+// evalIdentifierOperand evaluates an operand of IN or BETWEEN: an attribute name, a value, a document path or size()
 func evalIdentifierOperand(exp Expression, env *Environment) Object {
-	identifier, ok := exp.(*Identifier)
-	if !ok {
-		return newError("identifier expected: got %q", exp.String())
+	switch operand := exp.(type) {
+	case *Identifier:
+		return evalIdentifier(operand, env, true)
+	case *IndexExpression:
+		return evalIndex(operand, env)
+	case *CallExpression:
+		if isComparisonOperand(operand) {
+			return evalFunctionCall(operand, env)
+		}
 	}
 
-	val := evalIdentifier(identifier, env, true)
-	if val.Type() == ObjectTypeError {
-		return val
-	}
-
-	return val
+	return newError("identifier expected: got %q", exp.String())
 }
 
 func evalFunctionCall(node *CallExpression, env *Environment) Object {
